@@ -2,7 +2,7 @@ import Mixin.Prelude.Proto
 import Mixin.Model.Topology
 /-! Line-protocol driver for the topology model (C35).
 
-    reset | raw order h | boot | write h | stop | reopen | since off count | lookup h | last -/
+    reset | raw order h | boot | write h | stop | reopen | since off count | lookup h | last | nsince off count | tick -/
 namespace Mixin.Driver.Topology
 open Mixin.Proto Mixin.Topology
 
@@ -28,6 +28,9 @@ def parseOp (t : List String) : Option Op :=
     | some a, some b => some (.since a b) | _, _ => none
   | ["lookup", h] => h.toNat?.map .lookup
   | ["last"] => some .last
+  | ["nsince", a, b] => match a.toNat?, b.toNat? with
+    | some a, some b => some (.nsince a b) | _, _ => none
+  | ["tick"] => some .tick
   | _ => none
 
 def stepLine (s : S) (t : List String) : S × String :=
